@@ -308,6 +308,17 @@ class MBTilesCache(TileCacheBase):
             # MBTiles specification does not include timestamps.
             # This sets the timestamp of the tile to epoch (1970s)
             tile.timestamp = -1
+        elif tile.source and tile.coord is not None:
+            # the image was loaded before (load_tile does nothing then): read the
+            # time the tile was written again, it might have been refreshed since
+            cur = self.db.cursor()
+            cur.execute('''SELECT last_modified FROM tiles
+                WHERE tile_column = ? AND
+                      tile_row = ? AND
+                      zoom_level = ?''', tile.coord)
+            row = cur.fetchone()
+            if row:
+                tile.timestamp = sqlite_datetime_to_timestamp(row[0])
         else:
             self.load_tile(tile, dimensions=dimensions)
 
@@ -407,7 +418,9 @@ class MBTilesLevelCache(TileCacheBase):
         return self._get_level(tile.coord[2]).remove_tile(tile)
 
     def load_tile_metadata(self, tile, dimensions=None):
-        self.load_tile(tile, dimensions=dimensions)
+        if tile.coord is None:
+            return
+        self._get_level(tile.coord[2]).load_tile_metadata(tile, dimensions=dimensions)
 
     def remove_level_tiles_before(self, level, timestamp=None, remove_all=False):
         level_cache = self._get_level(level)
